@@ -18,7 +18,7 @@ J gen_ro(const std::string& prop, uint64_t run_seed, const std::string& tier) {
   gen_hist_ops(g, nofault, "C03", n, false, ops);
   // make tags and nesting likely: wrap something in a tag, load a random tree
   if (g.chance(2, 3)) { HOp t; t.code = OP_BUILD_TAG; t.a = g.next() >> 8; t.c = gen_u64(g); ops.push(hop_to_json(t)); }
-  if (g.chance(1, 2)) { HOp l; l.code = OP_LOAD_RAW; l.c = g.next(); ops.push(hop_to_json(l)); }
+  if (g.chance(1, 2)) { HOp l; l.code = OP_LOAD_RAW; l.c = g.next(); if (g.chance(1, 6)) l.d = 4; else if (g.chance(1, 6)) l.d = 8; ops.push(hop_to_json(l)); }   // d=4: strings beyond 64 KiB, d=8: deep chain
   if (g.chance(1, 2)) { HOp a; a.code = OP_NEW_INDEF_ARRAY; ops.push(hop_to_json(a)); for (int i = 0; i < 3; i++) { HOp p; p.code = OP_PUSH; p.a = SEL_LAST; p.b = g.next() >> 8; ops.push(hop_to_json(p)); } }
   plan.set("ops", ops);
   plan.set("sched_seed", sc.next() >> 1);
